@@ -549,6 +549,11 @@ func (r *RIB) addEntryInternal(ni string, op *spb.AFTOperation, oks, fails *[]*O
 
 	switch {
 	case opErr != nil:
+		// This is the operation's final answer: it must neither stay in the set of
+		// held operations nor be attempted again further down this call stack,
+		// otherwise it would be reported as failed again by a later installation.
+		installStack[op.GetId()] = true
+		r.rmPending(op.GetId())
 		*fails = append(*fails, &OpResult{
 			ID:    op.GetId(),
 			Op:    op,
